@@ -370,6 +370,22 @@ func init() {
 			r.lazyGo = true
 			return nil
 		},
+		zz + "Hangs": func(r *Run, fn *ssa.Function, a []Value) Value {
+			hung := false
+			func() {
+				defer func() {
+					if e := recover(); e != nil {
+						if pe, ok := e.(*pathEnd); ok && pe.kind == "deadlock" {
+							hung = true
+							return
+						}
+						panic(e)
+					}
+				}()
+				r.callValue(a[0], nil, nil)
+			}()
+			return r.ts.Bool(hung)
+		},
 		zz + "KillGoroutines": func(r *Run, fn *ssa.Function, a []Value) Value {
 			r.goQueue = nil
 			return nil
